@@ -306,20 +306,53 @@ Lemma crash_reload_example :
   load_initial [] [] (disk_files d') = load_initial [] [] (disk_files d).
 Proof. vm_compute. repeat split; reflexivity. Qed.
 
-(* ---------------------------------------------------------------- the background re-read in between *)
+(* ---------------------------------------------------------------- the background refresh in between *)
 
-(* disk_converges speaks of API calls only.  The code has one more actor: refreshRemote
-   re-reads the directory into the live list one second after New.  Landing between a
-   Remove's mutation and its persist() it undoes the removal in memory only: every call
-   has returned, nothing is outstanding, lastPersisted = version, and yet the file is
-   not the memory (finding blocklist-refresh-readds-removed). *)
-Lemma refresh_convergence_refuted_lemma :
+(* The code has one more actor than the API: refreshRemote, one second after New.
+   Since dba5ede it parses only freshly downloaded lists; it never touches `local`,
+   the version counter or the outstanding snapshots, and with no remote list
+   configured it does nothing at all — so it can land anywhere in an interleaving
+   without disturbing convergence.  (Before dba5ede it re-read `local` and could put a
+   just-removed entry back in memory only: see refresh_reread_example.) *)
+Lemma sys_refresh_nil s : sys_refresh [] s = s.
+Proof. now destruct s. Qed.
+
+Lemma sys_refresh_disk dl s :
+  s_local (sys_refresh dl s) = s_local s /\ s_pending (sys_refresh dl s) = s_pending s /\
+  s_version (sys_refresh dl s) = s_version s /\ s_last (sys_refresh dl s) = s_last s.
+Proof. repeat split. Qed.
+
+Inductive rstep : sys -> sys -> Prop :=
+| RApi s t : step s t -> rstep s t
+| RRefresh s : rstep s (sys_refresh [] s).
+Inductive rsteps : sys -> sys -> Prop :=
+| rsteps_refl s : rsteps s s
+| rsteps_next s t u : rsteps s t -> rstep t u -> rsteps s u.
+
+Lemma rsteps_steps s t : rsteps s t -> steps s t.
+Proof.
+  induction 1 as [s|s t u _ IH St]; [constructor|].
+  destruct St as [t u St|t]; [eapply steps_next; eauto|now rewrite sys_refresh_nil].
+Qed.
+
+Lemma refresh_convergence_lemma b0 l0 s :
+  rsteps (init b0 l0) s -> s_pending s = [] ->
+  (s_version s = 0 /\ s_mem s = b0 /\ s_local s = l0) \/
+  (s_last s = s_version s /\
+   exists ex wi, Permutation ex (bm (s_mem s)) /\ Permutation wi (bwild (s_mem s)) /\
+                 s_local s = Some (snap_bytes (mk_snap (s_version s) ex wi))).
+Proof. intros H. apply disk_converges_lemma. now apply rsteps_steps. Qed.
+
+(* the schedule that refuted this before dba5ede, on the old and on the new refresh:
+   re-reading `local` between Remove's mutation and its persist() *)
+Lemma refresh_reread_example :
   let x := [120; 46; 116; 101; 115; 116; 46] in
   let s0 := mk_sys (mk_bl [x] [] []) 1 1 (Some (lines_bytes [header; x])) [] in
   let s1 := snd (sys_mutate (OpRemove x) [] [] s0) in
-  let s3 := sys_persist 0 (sys_refresh s1) in
-  s_pending s3 = [] /\ s_last s3 = s_version s3 /\
-  s_local s3 = Some (lines_bytes [header]) /\ bm (s_mem s3) = [x] /\
-  (* without the re-read the same schedule converges *)
-  bm (s_mem (sys_persist 0 s1)) = [] /\ s_local (sys_persist 0 s1) = Some (lines_bytes [header]).
+  (* old refresh = parsing `local` as if it were a download *)
+  bm (s_mem (sys_persist 0 (sys_refresh [lines_bytes [header; x]] s1))) = [x] /\
+  s_local (sys_persist 0 (sys_refresh [lines_bytes [header; x]] s1)) = Some (lines_bytes [header]) /\
+  (* new refresh *)
+  bm (s_mem (sys_persist 0 (sys_refresh [] s1))) = [] /\
+  s_local (sys_persist 0 (sys_refresh [] s1)) = Some (lines_bytes [header]).
 Proof. vm_compute. repeat split; reflexivity. Qed.
